@@ -64,6 +64,11 @@ package catalog
 //@ assumepre io.FileSize.tf "the template comes from a validated bucket (C30 preconditions, not part of C16)"
 //@ assumepre io.FileSize.rs "as above"
 //@ assumepre io.FileSize.year "as above"
+//@ assumepre io.TimeBucketInfo.GetTimeframe.loaded "the template description is loaded (NewTimeBucketInfo and the catalog loader set IsRead)"
+//@ assumepre io.TimeBucketInfo.GetRecordLength.loaded "as above"
+//@ assumepre io.TimeBucketInfo.GetRecordType.loaded "as above"
+//@ assumepre io.TimeBucketInfo.GetNelements.loaded "as above"
+//@ assumepre io.TimeBucketInfo.GetVersion.loaded "as above"
 //@ requires #path: newTimeBucketInfo != nil ==> underRoot(newTimeBucketInfo.Path)
 
 //@ func (*Directory).AddTimeBucket
